@@ -49,6 +49,9 @@ CONT = {
     'array-H': lambda c: _array.array('H', c), 'array-i': lambda c: _array.array('i', c), 'array-q': lambda c: _array.array('q', c),
     'array-B': lambda c: _array.array('B', c), 'memoryview': lambda c: memoryview(bytes(c)),
     'memoryview-H': lambda c: memoryview(_array.array('H', c)), 'deque': _collections.deque, 'map': lambda c: map(int, c),
+    # the same integers in other clothes: True/False for 1/0 (a pedal state, a flag), int subclasses, IntEnum members, a
+    # numpy-like Integral that is no int - bytes to the tokenizer like any other
+    'exotic': lambda c: [(bool(x) if x in (0, 1) else gen.exotic_ints(x)[(i + x) % len(gen.exotic_ints(x))]) for i, x in enumerate(c)],
 }
 
 
